@@ -91,6 +91,7 @@ type FuncContract struct {
 	MayPanic bool // caller-supplied component: the call may exit by panic
 	Logged   bool // record calls in the call log
 	CallsDecl []string // logged callees this function may (transitively) call
+	Owns     []string // "<closure suffix> <slice[index]>,..." ownership of go sites
 	Loops    map[string]*LoopContract
 	Asserts  []AnchorAssert
 	Props    []string
@@ -199,7 +200,7 @@ func ParseContractFile(path, pkgPath string) (*ContractFile, error) {
 }
 
 var keywords = []string{"import", "abstract", "spec", "axiom", "func", "extern", "interface", "global-invariant",
-	"requires", "ensures", "modifies", "pure", "inline", "trusted", "nopanic", "logged", "fresh", "loop", "invariant", "decreases", "assert", "assume", "props", "panics", "stmt", "calls", "maypanic"}
+	"requires", "ensures", "modifies", "pure", "inline", "trusted", "nopanic", "logged", "fresh", "loop", "invariant", "decreases", "assert", "assume", "props", "panics", "stmt", "calls", "maypanic", "owns"}
 
 func splitKeyword(t string) (string, string) {
 	for _, k := range keywords {
@@ -393,6 +394,8 @@ func (cf *ContractFile) addItem(kw, text string, line int, cur **FuncContract, c
 			fc.CallsDecl = append(fc.CallsDecl, strings.Fields(strings.ReplaceAll(text, ",", " "))...)
 		case "maypanic":
 			fc.MayPanic = true
+		case "owns":
+			fc.Owns = append(fc.Owns, text)
 		case "props":
 			fc.Props = append(fc.Props, strings.Fields(strings.ReplaceAll(text, ",", " "))...)
 		case "loop":
